@@ -170,12 +170,32 @@ def unit_vectors(model, sizes):
     return recs
 
 
+class PrefixDone(BaseException):
+    """raised by the stubbed copy.deepcopy: the validation prefix of rate() has accepted the call"""
+
+
+def _stop_after_validation(S):
+    """what follows an accepted validation is irrelevant to 'malformed calls are rejected': rate()'s deep copy
+    and the predictions' first team aggregation end the execution (a malformed argument that is accepted
+    would otherwise drag the whole computation along)"""
+    class _Copy:
+        @staticmethod
+        def deepcopy(x, memo=None):
+            raise PrefixDone()
+    S.ns["copy"] = _Copy
+
+    def _ctr(self, *a, **k):
+        raise PrefixDone()
+    S.cls._calculate_team_ratings = _ctr
+
+
 def unit_long_vector(model, n):
     """a ranks / scores vector of n > 4 elements with exactly one non-number, at every position in turn:
     rejected with TypeError / ValueError and nothing modified (the grammar units above stop at 3 elements;
     the for-every-length proof of the prefix covers this too, when it is attempted)"""
     S = extract.Scratch(model)
     game.stub_gauss_uninterpreted(S)
+    _stop_after_validation(S)
     recs = []
     nonnum = [t for t in range(11) if t not in (AnyObj.BOOL, AnyObj.INT, AnyObj.FLOAT)]
     for vec in ("ranks", "scores"):
@@ -188,13 +208,61 @@ def unit_long_vector(model, n):
                 vals = [k for k in range(n)]
                 vals[j] = AnyObj("intruder", ctx, own_cls=S.rating_cls, allowed=nonnum)
                 snap = game.snapshot(teams, m)
-                out = call(m.rate, teams, **{vec: vals})
+                try:
+                    out = call(m.rate, teams, **{vec: vals})
+                except PrefixDone:
+                    out = ("return", "accepted: validation passed the call on to the computation")
                 ok = out[0] == "raise" and type(out[1]) in (TypeError, ValueError)
                 rp = {"kind": "c13_long_vector", "model": model, "vec": vec, "n": n, "j": j}
                 ctx.oblige(f"C13/{model}/rate/rejects-a-non-number-at-any-position-of-a-long-{vec}-vector[{j} of {n}]",
                            z3.And(z3.BoolVal(bool(ok)), game.heap_unchanged(snap)), meta={"fn": f"{model}.rate", "replay": rp})
             explore(ctx, run)
             recs += settle(ctx.all_obls, mode="U")
+    return recs
+
+
+def unit_long_teams(model, n):
+    """n > 4 teams of which exactly one is malformed (not a list / empty / holds a non-rating / holds another
+    model's rating), at every position in turn: rate and the three predictions reject with TypeError /
+    ValueError and modify nothing (the grammar units stop at 3 teams)"""
+    import importlib
+    from ..concrete import MODEL_MODULES
+    S = extract.Scratch(model)
+    game.stub_gauss_uninterpreted(S)
+    _stop_after_validation(S)
+    other = [m for m in extract.MODELS if m != model][0]
+    OR = getattr(importlib.import_module(MODEL_MODULES[other]), other + "Rating")
+    recs = []
+    for op in ("rate",) + PREDICTS:
+        for j in range(n):
+            for what in ("not-a-list", "empty", "non-rating-member", "foreign-rating-member"):
+                if op != "rate" and what in ("not-a-list", "empty") and j not in (0, n - 1):
+                    continue
+                ctx = Ctx("U")
+
+                def run(ctx, op=op, j=j, what=what):
+                    m, _ = game.mk_model(ctx, S)
+                    teams = game.mk_teams(ctx, S, (1,) * n)
+                    good = [p for t in teams for p in t]
+                    if what == "not-a-list":
+                        teams[j] = tuple(teams[j])
+                    elif what == "empty":
+                        teams[j] = []
+                    elif what == "non-rating-member":
+                        teams[j] = [teams[j][0], 21]
+                    else:
+                        teams[j] = [OR(ctx.real("f_mu"), ctx.real("f_sg"))]
+                    snap = game.snapshot([good], m)
+                    try:
+                        out = call(getattr(m, op), teams)
+                    except PrefixDone:
+                        out = ("return", "accepted: validation passed the call on to the computation")
+                    ok = out[0] == "raise" and type(out[1]) in (TypeError, ValueError)
+                    rp = {"kind": "c13_long_teams", "model": model, "op": op, "n": n, "j": j, "what": what, "other": other}
+                    ctx.oblige(f"C13/{model}/{op}/rejects-a-malformed-team-at-any-position-of-a-long-list[{what}@{j} of {n}]",
+                               z3.And(z3.BoolVal(bool(ok)), game.heap_unchanged(snap)), meta={"fn": f"{model}.{op}", "replay": rp})
+                explore(ctx, run)
+                recs += settle(ctx.all_obls, mode="U")
     return recs
 
 
@@ -303,10 +371,6 @@ def unit_history(model):
                 explore(ctx, run)
                 recs += settle(ctx.all_obls, mode="U")
     return recs
-
-
-class PrefixDone(BaseException):
-    """raised by the stubbed copy.deepcopy: the validation prefix of rate() has accepted the call"""
 
 
 def unit_unbounded(model):
@@ -506,6 +570,7 @@ def units(tier):
         us.append(("unit_foreign", (m,)))
         us.append(("unit_history", (m,)))
         us.append(("unit_long_vector", (m, 6 if tier == "quick" else 8)))
+        us.append(("unit_long_teams", (m, 6 if tier == "quick" else 8)))
         us.append(("unit_unbounded", (m,)))
     return us
 
